@@ -27,7 +27,7 @@ BUILTINS = {
     "chr", "hash", "slice", "min", "max", "any", "all", "print", "id", "type", "bytes", "object",
     "sum", "map", "filter", "callable", "issubclass", "super", "property", "staticmethod",
     "classmethod", "NotImplemented", "divmod", "round", "format", "hex", "open", "vars", "getattr",
-    "setattr", "hasattr", "eval", "exec", "globals", "locals", "__import__", "input", "bin", "oct",
+    "setattr", "hasattr", "eval", "exec", "globals", "locals", "__import__", "input", "bin", "oct", "ascii",
 }
 BUILTIN_EXCS = {k for k in BUILTIN_EXC_BASES if "." not in k}
 
@@ -656,6 +656,10 @@ class HostBase:
             return self.contains(cont.seq, item, node)
         if isinstance(cont, (Opaque, Term, Source, Stream)):
             return self.ctx.choose(("in", getattr(cont, "id", 0), repr(item)), [False, True])
+        if isinstance(cont, Inst) and not any(cont.cls.find_method(m) is not None for m in ("__contains__", "__iter__", "__getitem__")):
+            raise self.raise_("TypeError", f"argument of type {cont.cls.name!r} is not iterable", node)
+        if isinstance(cont, Const) and not isinstance(cont.value, (str, bytes, tuple, list, dict, set, frozenset)):
+            raise self.raise_("TypeError", f"argument of type {type(cont.value).__name__!r} is not iterable", node)
         raise self.unsupported(node, f"{item!r} in {cont!r}")
 
     def key_desc(self, key: AV) -> Any:
